@@ -50,9 +50,15 @@ FRAG_GROUPS = {
     "all": (["get_record", "expand_pair_all", "expand_all"], ["base", "curie"]),
     "std": (["standardize_curie", "standardize_uri"], ["base", "curie"]),
     "mixed": (["parse", "compress_or_standardize", "expand_or_standardize"], ["base", "uri", "curie"]),
+    "shacl": (["_get_shacl_line"], []),
+    "epm": (["_record_to_dict"], []),
+    "jsonld": (["_get_expanded_term", "_get_jsonld_context"], []),
+    "index": (["_index"], []),
+    "merge": (["_merge"], []),
 }
 FRAG_OF = {"C01": ["base", "uri"], "C02": ["base", "curie", "all"], "C03": ["base", "uri", "curie"], "C06": ["base", "curie", "std"],
-           "C07": ["base", "uri", "curie", "mixed"], "C08": ["base", "uri", "curie", "all", "std", "mixed"]}
+           "C07": ["base", "uri", "curie", "mixed"], "C08": ["base", "uri", "curie", "all", "std", "mixed"],
+           "C05": ["index", "merge"], "C14": ["shacl", "epm", "jsonld"]}
 
 BATCH = int(os.environ.get("VERIF_BATCH", "6000"))
 
